@@ -88,7 +88,7 @@ func c16NA(mask int, where string) *refcfg.NamingAuthority {
 	return n
 }
 
-var c16ItemSets = [][]string{{"Arzt"}, {"Ärztin/Arzt", "Apotheker"}, {"B", "日本", "A"}}
+var c16ItemSets = [][]string{{"Arzt"}, {"Ärztin/Arzt", "Apotheker"}, {"B", "日本", "A"}, {"", "Arzt"}, {""}} // the last two: an item that is the empty text is an item
 
 func c16Unit(c *c16Case) (refcfg.Admissions, refcfg.ProfessionInfo) { return c16UnitAt(c, 0) }
 
